@@ -16,16 +16,16 @@ Theorem C14_memo_inv : forall (A : Type) (children : nat -> list nat),
   forall (f : nat -> list A -> option A) early oneshot w root fuel s a,
   clean A children f w -> enough_fuel children root <= fuel ->
   walk A children f early oneshot fuel w root = (s, a) ->
-  Mok A children f (mm s) /\ (oneshot = false -> sub A (mm w) (mm s)) /\
-  (forall v, a = Ok v -> clean A children f s) /\ a <> NoFuel.
+  (stk s = [] /\ Mok A children f (mm s)) /\ (oneshot = false -> sub A (mm w) (mm s)) /\ a <> NoFuel.
 Proof. exact walk_memo_inv. Qed.
 
 (* for every history h of calls on any of the environment's persistent walkers (over formulas
-   sharing any sub-DAGs with the query) the query q answers as in a fresh environment *)
+   sharing any sub-DAGs with the query; calls that raise included: [api_ok] only asks for
+   enough fuel) the query q answers as in a fresh environment *)
 Theorem C14_history_independent : forall (A : Type) (children : nat -> nat -> list nat),
   (forall w n c, In c (children w n) -> c < n) ->
   forall (f : nat -> nat -> list A -> option A) (early : nat -> bool) fuel h q,
-  Forall (api_ok A children f fuel) h -> api_ok A children f fuel q ->
+  Forall (api_ok children fuel) h -> api_ok children fuel q ->
   ans_equiv (result_after A children f early fuel h q) (result_fresh A children f early fuel q).
 Proof. exact history_independent. Qed.
 
@@ -33,7 +33,7 @@ Proof. exact history_independent. Qed.
 Theorem C14_repeat_same : forall (A : Type) (children : nat -> nat -> list nat),
   (forall w n c, In c (children w n) -> c < n) ->
   forall (f : nat -> nat -> list A -> option A) (early : nat -> bool) fuel h q v,
-  Forall (api_ok A children f fuel) h -> api_ok A children f fuel q ->
+  Forall (api_ok children fuel) h -> api_ok children fuel q ->
   result_after A children f early fuel h q = Ok v ->
   let e1 := fst (env_call A children f early fuel (env_run A children f early fuel (env_init A) h) q) in
   snd (env_call A children f early fuel e1 q) = Ok v /\
@@ -45,7 +45,7 @@ Proof. exact repeat_same. Qed.
 Theorem C14_oneshot_history_independent : forall (A P : Type) (children : nat -> list nat),
   (forall n c, In c (children n) -> c < n) ->
   forall (f : P -> nat -> list A -> option A) early fuel h q,
-  Forall (os_ok A P children f fuel) h -> os_ok A P children f fuel q ->
+  Forall (os_ok P children fuel) h -> os_ok P children fuel q ->
   ans_equiv (snd (do_call A P children f early true fuel
                     (fst (run_calls A P children f early true fuel (init A) h)) q))
             (fresh_answer A P children f early true fuel q).
